@@ -1139,3 +1139,112 @@ pub fn connector_cases() -> Vec<ConnectorCase> {
     }
     out
 }
+
+// ----------------------------------------------------------------------------- worker connector
+
+/// The worker-side connector of tako (`connect_to_server_and_authenticate`, the function the
+/// worker's registration loop calls for every attempt) against a listener of the harness.
+/// `(worker has a key, behaviour of the listener)`; behaviours: 0 close at once, 1 garbage,
+/// 2 honest worker endpoint without a key, 3 honest worker endpoint with the worker's key,
+/// 4 honest worker endpoint with another key, 5 the worker's key but the roles of the client
+/// endpoint, 6 the worker's key and the right roles but another protocol number, 7 no key and
+/// the roles of the client endpoint.
+pub type WorkerConnectorCase = (bool, u8);
+
+pub fn run_worker_connector_case(case: &WorkerConnectorCase) -> Result<bool, String> {
+    let (has_key, b) = *case;
+    let h = std::thread::Builder::new()
+        .stack_size(16 << 20)
+        .spawn(move || -> Result<bool, String> {
+            let rt = tokio::runtime::Builder::new_current_thread()
+                .enable_all()
+                .build()
+                .map_err(|e| format!("{e:?}"))?;
+            let local = tokio::task::LocalSet::new();
+            rt.block_on(local.run_until(async move {
+                let listener = tokio::net::TcpListener::bind("127.0.0.1:0")
+                    .await
+                    .map_err(|e| format!("bind: {e:?}"))?;
+                let addr = listener.local_addr().map_err(|e| format!("{e:?}"))?;
+                let key = Arc::new(SecretKey::from_slice(&[41u8; 32]).unwrap());
+                let other = Arc::new(SecretKey::from_slice(&[42u8; 32]).unwrap());
+                let key2 = key.clone();
+                let server = tokio::task::spawn_local(async move {
+                    let mut keep = Vec::new();
+                    loop {
+                        let Ok((stream, _)) = listener.accept().await else { break };
+                        match b {
+                            0 => drop(stream),
+                            1 => {
+                                use tokio::io::AsyncWriteExt;
+                                let mut s = stream;
+                                let _ = s.write_all(&[3, 0, 0, 0, 1, 2, 3]).await;
+                                drop(s);
+                            }
+                            _ => {
+                                let k = match b {
+                                    2 | 7 => None,
+                                    4 => Some(other.clone()),
+                                    _ => Some(key2.clone()),
+                                };
+                                let (my, peer) = if b == 5 || b == 7 { ("hq-server", "hq-client") } else { ("server", "worker") };
+                                let protocol = if b == 6 { 1 } else { 0 };
+                                let (mut w, mut r) = LengthDelimitedCodec::builder()
+                                    .little_endian()
+                                    .max_frame_length(128 * 1024 * 1024)
+                                    .new_framed(stream)
+                                    .split();
+                                let _ = tokio::time::timeout(
+                                    Duration::from_secs(5),
+                                    tako::comm::do_authentication(protocol, my, peer, k, &mut w, &mut r),
+                                )
+                                .await;
+                                keep.push((w, r));
+                            }
+                        }
+                    }
+                });
+                let res = tokio::time::timeout(
+                    Duration::from_secs(30),
+                    tako::comm::connect_to_server_and_authenticate(&[addr], if has_key { Some(key.clone()) } else { None }),
+                )
+                .await;
+                server.abort();
+                match res {
+                    Err(_) => Err("worker connector did not come back within 30 s".to_string()),
+                    Ok(r) => Ok(r.is_ok()),
+                }
+            }))
+        })
+        .map_err(|e| format!("{e:?}"))?;
+    h.join().map_err(|_| "worker connector thread panicked".to_string())?
+}
+
+/// The worker may accept exactly the listener that proved the worker's key, the roles
+/// server / worker and the worker protocol number; and it accepts that one.
+pub fn worker_connector_verdict(case: &WorkerConnectorCase, ok: bool) -> Option<(String, String)> {
+    let compatible = if case.0 { 3u8 } else { 2u8 };
+    if ok && case.1 != compatible {
+        return Some((
+            "worker connector accepted a server that did not prove the worker's key, role and protocol".into(),
+            format!("worker key: {}, listener behaviour {}", case.0, case.1),
+        ));
+    }
+    if !ok && case.1 == compatible {
+        return Some((
+            "worker connector refused an undisturbed exchange with a matching server".into(),
+            format!("worker key: {}, listener behaviour {}", case.0, case.1),
+        ));
+    }
+    None
+}
+
+pub fn worker_connector_cases() -> Vec<WorkerConnectorCase> {
+    let mut out = Vec::new();
+    for has_key in [true, false] {
+        for b in 0..8u8 {
+            out.push((has_key, b));
+        }
+    }
+    out
+}
